@@ -723,8 +723,106 @@ func (g *mgen) one(kind int) []mcase {
 		return g.pubKeyDecorator()
 	case 38:
 		return g.multisigGas()
+	case 39, 40:
+		return g.legacyContent()
 	}
 	return nil
+}
+
+// legacyContent: the gov v1beta1 Content validators of fx-core, decoded from the wire as the content of a proposal
+func (g *mgen) legacyContent() []mcase {
+	h := g.h
+	r := h.r
+	abs := func() (string, string, string) {
+		if g.pick(0, 2) == 0 {
+			return "AbOk", "title", "description"
+		}
+		switch r.Intn(4) {
+		case 0:
+			return "AbBad", "", "d"
+		case 1:
+			return "AbBad", strings.Repeat("t", 141), "d"
+		case 2:
+			return "AbBad", "t", "" // (a blank-only description passes: ValidateAbstract trims the title only)
+		default:
+			return "AbBad", "t", strings.Repeat("d", 10001)
+		}
+	}
+	ac, title, desc := abs()
+	switch r.Intn(5) {
+	case 0:
+		cc, cv := g.chain()
+		n := r.Intn(4)
+		if r.Chance(g.ok) && n == 0 {
+			n = 2
+		}
+		var ocs, ovs []string
+		for i := 0; i < n; i++ {
+			oc, ov := g.bech(1 + r.Intn(4))
+			ocs, ovs = append(ocs, oc), append(ovs, ov)
+		}
+		m := &crosschaintypes.UpdateChainOraclesProposal{Title: title, Description: desc, ChainName: cv, Oracles: ovs}
+		return []mcase{g.cv(fmt.Sprintf("I_LUpdateChainOracles {| lo_chain := %s; lo_abs := %s; lo_oracles := [%s] |}", cc, ac, strings.Join(ocs, "; ")), h.wireRun(m, nil, vb))}
+	case 1:
+		md := fxtypes.GetCrossChainMetadataManyToOne("Tether USD", "USDT", 6)
+		bankOK, fx, baseOK := true, "FmOk", true
+		switch g.pick(0, 6) {
+		case 1:
+			bankOK = false
+			md.Display = "nodisplayunit"
+		case 2:
+			bankOK = false
+			md.DenomUnits[1].Exponent = 0
+		case 3:
+			fx = "FmNoDecimals"
+			md.Symbol = "OTHER"
+		case 4:
+			baseOK = false
+			md.Base, md.Display, md.DenomUnits[0].Denom = "ibc", "ibc", "ibc"
+		case 5:
+			bankOK = false
+			md.Name = "  "
+		}
+		m := &erc20types.RegisterCoinProposal{Title: title, Description: desc, Metadata: md}
+		return []mcase{g.cv(fmt.Sprintf("I_LRegisterCoin {| lc_bank_ok := %v; lc_fx := %s; lc_base_ibc_ok := %v; lc_abs := %s |}", bankOK, fx, baseOK, ac), h.wireRun(m, nil, vb))}
+	case 2:
+		xc, xv := g.ext("ChEth")
+		var als, alv []string
+		for i, n := 0, r.Intn(4); i < n; i++ {
+			switch g.pick(2, 3) {
+			case 0:
+				als, alv = append(als, "AlBlank"), append(alv, []string{"", "  "}[r.Intn(2)])
+			case 1:
+				als, alv = append(als, "AlBadDenom"), append(alv, []string{"1a", "a", "x y z"}[r.Intn(3)])
+			default:
+				id := r.Intn(3)
+				als, alv = append(als, fmt.Sprintf("AlGood %d", id)), append(alv, []string{"usdc", "eth0x0000000000000000000000000000000000000002", "dai"}[id])
+			}
+		}
+		m := &erc20types.RegisterERC20Proposal{Title: title, Description: desc, Erc20Address: xv, Aliases: alv}
+		return []mcase{g.cv(fmt.Sprintf("I_LRegisterERC20 {| le_address := %s; le_aliases := [%s]; le_abs := %s |}", xc, strings.Join(als, "; "), ac), h.wireRun(m, nil, vb))}
+	case 3:
+		tk, tv := "TkEth", h.p.ethOK[0]
+		switch g.pick(0, 3) {
+		case 1:
+			tk, tv = "TkDenom", []string{"usdt", "eth" + h.p.ethOK[0]}[r.Intn(2)]
+		case 2:
+			tk, tv = "TkNeither", []string{"", "a", "1a", "x y"}[r.Intn(4)]
+		}
+		m := &erc20types.ToggleTokenConversionProposal{Title: title, Description: desc, Token: tv}
+		return []mcase{g.cv(fmt.Sprintf("I_LToggle {| lt_token := %s; lt_abs := %s |}", tk, ac), h.wireRun(m, nil, vb))}
+	default:
+		dok, aok := g.pick(1, 2) == 1, g.pick(1, 2) == 1
+		d, a := "usdt", "eth0x0000000000000000000000000000000000000001"
+		if !dok {
+			d = []string{"", "1a", "a"}[r.Intn(3)]
+		}
+		if !aok {
+			a = []string{"", "1a", "a"}[r.Intn(3)]
+		}
+		m := &erc20types.UpdateDenomAliasProposal{Title: title, Description: desc, Denom: d, Alias: a}
+		return []mcase{g.cv(fmt.Sprintf("I_LDenomAlias {| ld_denom_ok := %v; ld_alias_ok := %v; ld_abs := %s |}", dok, aok, ac), h.wireRun(m, nil, vb))}
+	}
 }
 
 // pubKeyDecorator: the real ante.PubKeyDecorator on a decoded tx with npub signer infos and nsig required signers.
@@ -1424,7 +1522,7 @@ func (h *harness) stageModel() {
 	strict := os.Getenv("VERIF_STRICT") != ""
 	for i := 0; i < n; i++ {
 		g := &mgen{h: h, ok: []int{92, 85, 70, 40}[h.r.Intn(4)]}
-		kind := h.r.Intn(39)
+		kind := h.r.Intn(41)
 		for _, c := range g.one(kind) {
 			if strings.HasPrefix(c.obs.Msg, "harness:") {
 				h.rep.Count("model:harness-skip")
